@@ -8,6 +8,7 @@
 //@harness name=create_zero_precision_at_edges tier=quick label=bounded(durations=[1,1,1],delta-window,concrete-data) props=C05 timeout=900
 //@harness name=create_zero_precision_width5 tier=quick label=bounded(5-frames,width-5-window,concrete-data) props=C05 timeout=900
 //@harness name=create_zero_precision_next_to_unvoiced tier=quick label=bounded(3-frames,delta-window,concrete-data) props=C05,C11 timeout=900
+//@harness name=adjust_new_stores_its_arguments_unchanged tier=quick label=bounded(1-state,concrete-gv) props=C12,C11,C05 timeout=900
 use super::*;
 use crate::model::voice::window::Window;
 
@@ -120,4 +121,29 @@ fn create_zero_precision_next_to_unvoiced() {
     let out = adj.create(&[1, 1, 1]);
     assert!(out.len() == 3 && out[1][0] == NODATA);
     kani::cover!(true);
+}
+
+/// C12 / C11: MlpgAdjust::new only stores what it is given: the GV statistics and switch, the GV weight and the MSD
+/// threshold reach `create` exactly as the engine passed them (the weight is applied once, in MlpgMatrix::par)
+#[kani::proof]
+#[kani::unwind(6)]
+fn adjust_new_stores_its_arguments_unchanged() {
+    let windows = static_windows();
+    let w: f64 = kani::any();
+    let t: f64 = kani::any();
+    kani::assume(!w.is_nan() && !t.is_nan());
+    let stream = StreamParameter::new(vec![(vec![MeanVari(1.0, 2.0)], 0.9)]);
+    let gv: GvParameter = (vec![MeanVari(3.0, 4.0), MeanVari(5.0, 6.0)], vec![true, false]);
+    let a = MlpgAdjust::new(w, t, ModelStream { vector_length: 1, stream, gv: Some(gv), windows: &windows });
+    assert!(a.gv_weight.to_bits() == w.to_bits() && a.msd_threshold.to_bits() == t.to_bits() && a.vector_length == 1);
+    match &a.gv {
+        Some((p, sw)) => {
+            assert!(p.len() == 2 && p[0].0 == 3.0 && p[0].1 == 4.0 && p[1].0 == 5.0 && p[1].1 == 6.0);
+            assert!(sw.len() == 2 && sw[0] && !sw[1]);
+        }
+        None => assert!(false),
+    }
+    assert!(a.stream.len() == 1 && a.stream[0].0[0].0 == 1.0 && a.stream[0].1 == 0.9);
+    kani::cover!(true);
+    std::mem::forget(a);
 }
